@@ -3,8 +3,8 @@
 package harness
 
 import (
-	"encoding/binary"
 	"crypto/sha256"
+	"encoding/binary"
 	"encoding/hex"
 	"fmt"
 	"math/rand/v2"
@@ -226,9 +226,9 @@ type World struct {
 
 	// scheduling strategy of this run
 	strat      int
-	lockStuck  bool // the main phase ended with tasks blocked on locks and nothing enabled
+	lockStuck  bool         // the main phase ended with tasks blocked on locks and nothing enabled
 	dir        *directedCfg // deadlock-directed re-execution (see directed.go)
-	preemptNum int // preemption probability preemptNum/preemptDen
+	preemptNum int          // preemption probability preemptNum/preemptDen
 	preemptDen int
 	advNum     int // probability of advancing the clock while tasks are enabled: advNum/64
 	pctPrio    map[int]int
@@ -244,9 +244,9 @@ type World struct {
 
 	cleanup []func()
 
-	FaultRate map[string]int // per kind: probability n/64 per opportunity
-	StepCheck func()         // invariant evaluated after every scheduling step
-	scData    any            // scenario private data handed from Build to Check
+	FaultRate map[string]int         // per kind: probability n/64 per opportunity
+	StepCheck func()                 // invariant evaluated after every scheduling step
+	scData    any                    // scenario private data handed from Build to Check
 	ArmSeq    map[*simrt.Task]uint64 // sequence number at which a timer task was armed / a goroutine spawned
 	SpawnHook func(t *simrt.Task)    // scenario hook, called when the stack spawns a goroutine or arms a timer
 	uniq      int
@@ -565,38 +565,38 @@ func (w *World) step(draw bool) bool {
 		switch {
 		case pick != nil:
 		default:
-		switch w.strat {
-		case stratWalk:
-			// order: current first so that 0 continues
-			opts := en
-			if cur != nil {
-				opts = append([]*simrt.Task{cur}, without(en, cur)...)
-			}
-			pick = opts[w.T.Choose(len(opts), "walk")]
-		case stratPCT:
-			if w.pctChange[w.Steps] && cur != nil {
-				w.pctPrio[cur.ID] = w.Steps - 100000 // lower than any initial priority, later change points lower still... (monotone)
-				w.pctPrio[cur.ID] = -w.Steps
-			}
-			best := en[0]
-			for _, t := range en {
-				if w.pctPrio[t.ID] > w.pctPrio[best.ID] {
-					best = t
+			switch w.strat {
+			case stratWalk:
+				// order: current first so that 0 continues
+				opts := en
+				if cur != nil {
+					opts = append([]*simrt.Task{cur}, without(en, cur)...)
 				}
-			}
-			pick = best
-		default:
-			if cur != nil {
-				others := without(en, cur)
-				if len(others) > 0 && w.T.Bool(w.preemptNum, w.preemptDen, "preempt?") {
-					pick = others[w.T.Choose(len(others), "preempt-to")]
+				pick = opts[w.T.Choose(len(opts), "walk")]
+			case stratPCT:
+				if w.pctChange[w.Steps] && cur != nil {
+					w.pctPrio[cur.ID] = w.Steps - 100000 // lower than any initial priority, later change points lower still... (monotone)
+					w.pctPrio[cur.ID] = -w.Steps
+				}
+				best := en[0]
+				for _, t := range en {
+					if w.pctPrio[t.ID] > w.pctPrio[best.ID] {
+						best = t
+					}
+				}
+				pick = best
+			default:
+				if cur != nil {
+					others := without(en, cur)
+					if len(others) > 0 && w.T.Bool(w.preemptNum, w.preemptDen, "preempt?") {
+						pick = others[w.T.Choose(len(others), "preempt-to")]
+					} else {
+						pick = cur
+					}
 				} else {
-					pick = cur
+					pick = en[w.T.Choose(len(en), "next")]
 				}
-			} else {
-				pick = en[w.T.Choose(len(en), "next")]
 			}
-		}
 		}
 	}
 	// scheduling decisions go into the hash in compact form in every mode (sequence numbers
